@@ -268,6 +268,20 @@ def run(ctx, only_scripts=None):
             family="proc", property=prop, clause=tag, script=scripts[si], trace_line_in_script=line - 1 - lo,
             trace=events[lo:hi + 1]))
         violations.append(dict(key=tag, replay=rp, what="event %d of script %d (%s)" % (line - 1 - lo, si, scripts[si].get("origin"))))
+    if prop == "C17" and only_scripts is None:
+        import fam_e2e
+        binp = ctx.go_test_build("./cmd/thermal-recorder", "tr.test")
+        e2e_runs = fam_e2e.c17_runs(ctx, binp)
+        for v in fam_e2e.judge_c11(ctx, e2e_runs, binp):
+            if v["key"].startswith("C11:e2e-"):
+                continue
+            v["key"] = v["key"].replace("C11:settings-do-not-shape-files", "C17:end-to-end").replace("C11:", "C17:")
+            violations.append(v)
+        stats["e2e_runs_with_test_recordings"] = len(e2e_runs)
+    raw_stats = {}
+    if prop == "C13" and only_scripts is None:
+        rv, raw_stats = raw_frames(ctx, tier)
+        violations += rv
     # ---------------------------------------------------------------- 4. conformance (drift is not a verdict)
     rej, accepted = conform(ctx, trace)
     conf = dict(events_accepted=accepted, rejected_at=None)
@@ -310,7 +324,7 @@ def run(ctx, only_scripts=None):
         samples=[sample],
         exhaustive=True,
         design=dict(constants=consts, next=nxt, depth=d.get("depth")),
-        scripts=stats, events_judged=nev, observed=hits,
+        scripts=stats, events_judged=nev, observed=hits, raw_frame_decoding=raw_stats,
         distinct_nontrivial=distinct,
         evaluations=ntr,
         rule="scripts = transition cover of ProcReplay graphs + TLC -simulate behaviours + seeded boundary-biased "
@@ -319,6 +333,71 @@ def run(ctx, only_scripts=None):
         clauses_of_other_properties_fired=others,
     )
     return vlib.finish(ctx, violations, coverage, ASSUME)
+
+
+def raw_frames(ctx, tier):
+    """C13: raw Lepton / Boson frames (zero pixels at every position class incl. the border/interior boundary of
+    non-square frames, arbitrary pixel values and telemetry words) through the parser the daemon selects; judged by
+    RawFrame.tla on the bytes."""
+    import base64, subprocess
+    rng = ctx.rng
+    scripts = []
+    n = 300 if tier == "quick" else 6000
+    for i in range(n):
+        fmt = rng.choice(["lepton", "boson"])
+        model = "boson" if fmt == "boson" else rng.choice(["lepton3", "lepton3.5"])
+        w, h = rng.randint(1, 7), rng.randint(1, 7)
+        if rng.random() < 0.3:
+            w, h = rng.choice([(7, 3), (3, 7), (6, 2), (2, 6)])
+        edge = rng.randint(0, max(0, (min(w, h) - 1) // 2))
+        pix = [[rng.choice([1, 255, 256, 65535, rng.randint(1, 65535)]) for x in range(w)] for y in range(h)]
+        r = rng.random()
+        if r < 0.75:
+            # zeros at interesting places: just inside / just outside the border on every side
+            cands = [(y, x) for y in range(h) for x in range(w)]
+            ring = [(y, x) for (y, x) in cands if y in (edge - 1, edge, h - edge - 1, h - edge) or x in (edge - 1, edge, w - edge - 1, w - edge)]
+            for _ in range(rng.choice([1, 1, 2])):
+                (y, x) = rng.choice(ring or cands)
+                pix[y][x] = 0
+        tel = bytearray(640)
+        if fmt == "lepton":
+            for k in range(320):
+                v = rng.choice([0, 1, 0x7fff, rng.randint(0, 0x7fff)])
+                tel[2 * k], tel[2 * k + 1] = v >> 8, v & 255
+        body = bytearray()
+        for y in range(h):
+            for x in range(w):
+                v = pix[y][x]
+                body += bytes([v >> 8, v & 255]) if fmt == "lepton" else bytes([v & 255, v >> 8])
+        raw = bytes(tel) + bytes(body) if fmt == "lepton" else bytes(body)
+        scripts.append(dict(fmt=fmt, model=model, W=w, H=h, edge=edge, bytes=base64.b64encode(raw).decode()))
+    binp = ctx.go_test_build("./cmd/thermal-recorder", "tr.test")
+    inp, outp = ctx.path("run", "raw.json"), ctx.path("run", "raw.ndjson")
+    json.dump(dict(scripts=scripts), open(inp, "w"))
+    r = subprocess.run([binp, "-test.run", "^TestVerifRaw$"], env=dict(os.environ, VERIF_SCRIPT=inp, VERIF_OUT=outp),
+                       capture_output=True, text=True, timeout=900)
+    if r.returncode != 0 or not os.path.exists(outp):
+        out = r.stdout + r.stderr
+        if "panic:" in out:
+            return [dict(key="C13:parser-panicked", replay=vlib.save_replay(ctx, "raw_panic", dict(output=out[-2000:])), what=out[-300:])], dict(raw_frames=0)
+        raise vlib.Infra("raw driver failed: " + out[-2000:])
+    events = vlib.read_ndjson(outp)
+    t = ctx.tlc("raw", "RawFrame", mkcfg(init="TInit", next_="TNext", post="Consumed"), workers=1,
+                files=[(outp, "trace.ndjson")], timeout=1800, heap="4g")
+    if t.get("distinct", 0) != len(events) + 1:
+        raise vlib.Infra("RawFrame.tla did not consume the trace\n" + vlib.tail_err(t["out"]))
+    out, seen = [], set()
+    for (line, tags) in vlib.parse_viol(t["out"]):
+        for tg in tags:
+            if tg in seen:
+                continue
+            seen.add(tg)
+            e = events[line - 1]
+            rp = vlib.save_replay(ctx, tg.replace(":", "_"), dict(family="proc", property="C13", clause=tg,
+                                  script=scripts[e.get("script", 0)], observed={k: e[k] for k in e if k != "bytes"}))
+            out.append(dict(key=tg, replay=rp, what="fmt=%s %dx%d edge %d" % (e.get("fmt"), e.get("w", 0), e.get("h", 0), e.get("edge", 0))))
+    raws = [e for e in events if e["ev"] == "raw"]
+    return out, dict(raw_frames=len(raws), raw_bad=sum(1 for e in raws if e["bad"]), raw_boson=sum(1 for e in raws if e["fmt"] == "boson"))
 
 
 def replay(ctx, path):
